@@ -257,10 +257,10 @@ Definition find_next (c : cfg) (o : oracle) (k : ctl) (h : hnd) (a : N) : option
       end.
 
 (* the while loop of bootloader_write_data; None = assert *)
-Fixpoint wloop (fuel : nat) (c : cfg) (o : oracle) (k : ctl) (h : hnd) (v : list N) (log : list call)
+Fixpoint wloop (fuel : nat) (c : cfg) (o : oracle) (k : ctl) (h : hnd) (v : list N)
   : option (N * ctl * hnd * list call) :=
   match v with
-  | [] => Some (0, k, h, log)
+  | [] => Some (0, k, h, [])
   | _ :: _ =>
       match fuel with
       | O => None
@@ -271,13 +271,17 @@ Fixpoint wloop (fuel : nat) (c : cfg) (o : oracle) (k : ctl) (h : hnd) (v : list
               let k1 := set_start_a (setb k (nextb k) b) (amod c (start_a k + N.of_nat n)) in
               let h1 := set_hmem h m in
               match skipn n v with
-              | [] => Some (0, k1, h1, log ++ cl)
+              | [] => Some (0, k1, h1, cl)
               | v' =>
                   match find_next c o k1 h1 (start_a k1) with
                   | None => None
                   | Some (rc, k2, cl2) =>
-                      if rc =? 0 then wloop f c o k2 h1 v' (log ++ cl ++ cl2)
-                      else Some (rc, k2, h1, log ++ cl ++ cl2)
+                      if rc =? 0 then
+                        match wloop f c o k2 h1 v' with
+                        | None => None
+                        | Some (rc3, k3, h3, cl3) => Some (rc3, k3, h3, cl ++ cl2 ++ cl3)
+                        end
+                      else Some (rc, k2, h1, cl ++ cl2)
                   end
               end
           end
@@ -295,9 +299,14 @@ Definition write_data_char (c : cfg) (o : oracle) (k : ctl) (h : hnd) (v : list 
         match find_next c o k h (start_a k) with
         | None => None
         | Some (rc, k1, cl) =>
-            if rc =? 0 then wloop (S (length v)) c o k1 h v cl else Some (rc, k1, h, cl)
+            if rc =? 0 then
+              match wloop (S (length v)) c o k1 h v with
+              | None => None
+              | Some (rc3, k3, h3, cl3) => Some (rc3, k3, h3, cl ++ cl3)
+              end
+            else Some (rc, k1, h, cl)
         end
-      else wloop (S (length v)) c o k h v []
+      else wloop (S (length v)) c o k h v
   end.
 
 (* bootloader_write_control_point -> ((error code, notify?), controller, handler, calls); None = over-read / assert *)
